@@ -118,13 +118,17 @@ CLAIMED.update({
         technique="Lean 4 model of the state machine + structural proofs over the grammar AST + differential correspondence with a grammar oracle"),
     "C05": dict(
         text=("Totality: the Lean model makes every slice, lookup and number parse an explicit outcome; theorems in "
-              "Props/C05.lean show no reachable panic.  Correspondence: ALL strings up to length 4 (quick) / 5-7 "
+              "Props/C05.lean show no reachable panic for every string, table and character class.  The converse is "
+              "proved too (Props/C05Sound.lean, parse_sound): whatever the parser accepts is the rendering of a "
+              "non-empty raw syntax tree that is well-formed over the table, and the composition returned is its "
+              "denotation; Props/C05Rejects.lean derives the rejection of foreign characters, unbalanced parentheses, "
+              "empty groups, empty text and bad starts, instantiated at the regenerated table (Inst/C05.lean).  Correspondence: ALL strings up to length 4 (quick) / 5-7 "
               "(thorough) over an 18-class alphabet, mutations of valid formulas, random long strings, deep and "
               "unbalanced nesting, in a child process with a stall watchdog; a composition may be returned only when "
               "the independent grammar oracle accepts (or leaves unspecified: `[]`, `[0]`)."),
         design_ref="§7.5",
         note=NOTE_COMMON + " Partial (runtime): stack exhaustion and aborts are observed on the child process, not proved.",
-        technique="Lean 4 panic-freedom proof of the parser model + exhaustive short-string differential correspondence"),
+        technique="Lean 4 panic-freedom and soundness proofs of the parser model (state invariant, induction on fuel) + exhaustive short-string differential correspondence"),
     "C07": dict(
         text=("Model of to_formula (C, H, then entries sorted by symbol and isotope) and of every FromStr; theorems in "
               "Props/C07.lean.  Correspondence: Display on all four forms and permuted insertion orders must be "
@@ -171,7 +175,8 @@ CLAIMED.update({
     "C09": dict(
         text=("Model of NumPeaksSpec resolution (both conversions, saturating arithmetic, update_order), max_variants, the "
               "1e-10 cut loop and the sort; shape theorems in Props/C09.lean.  Correspondence: every integer request in "
-              "-3..320, i32 extremes, usize/Option forms and fractions on ten compositions plus the C03 cases; "
+              "-3..320, i32 extremes, usize/Option forms and fractions on ten compositions plus the C03 cases, a quarter of "
+              "them also through IsotopicDistribution::from_composition / from_composition_and_cache; "
               "non-emptiness, strictly increasing m/z within [lightest, heaviest], normalisation over the requested "
               "range, coverage of every variant with share >= 2e-10 judged against the exact distribution."),
         design_ref="§7.9",
@@ -187,10 +192,12 @@ CLAIMED.update({
               "table untouched with a null out-pointer, parse_formula yields a handle exactly when the parser accepts, "
               "mass/get are the composition's, handle bookkeeping balances.  Correspondence: call sequences up to length 40 "
               "with valid, malformed and non-UTF-8 byte strings through the real extern \"C\" functions in a child process; "
-              "return code, out-pointer and mass + six probe reads of every live handle compared after every call."),
+              "return code, out-pointer and mass + six probe reads of every live handle compared after every call; every "
+              "sequence is replayed in a build of the harness under AddressSanitizer + LeakSanitizer (nightly "
+              "-Zsanitizer=address) and a report is narrowed to a minimal call list."),
         design_ref="§7.17",
-        note=NOTE_COMMON + " Partial (memory safety): no Lean model expresses invalid access / double free / leak; handle bookkeeping is proved, Rust ownership trusted, the child's exit status observed. to_string_lossy is performed by the real code and passed to the model.",
-        technique="Lean 4 state-machine refinement to the Rust-API models + differential correspondence through the C ABI"),
+        note=NOTE_COMMON + " Partial (memory safety): no Lean model expresses invalid access / double free / leak; handle bookkeeping is proved, Rust ownership trusted, the child's exit status observed and every generated sequence replayed under AddressSanitizer + LeakSanitizer. to_string_lossy is performed by the real code and passed to the model.",
+        technique="Lean 4 state-machine refinement to the Rust-API models + differential correspondence through the C ABI (plain and AddressSanitizer builds)"),
 })
 CLAIMED["C10"]["text"] = ("Proof: neutral_mass inverts mass_charge_ratio for every non-zero charge (field identity over Q); the guarded "
     "conversion is the identity at charge 0 and strictly increasing otherwise; for ALL THREE generators (Poisson, fine-structure "
